@@ -58,20 +58,18 @@ Qed.
 
 (** ALIGNB n at address LOC = origin + len, origin a multiple of n, n a power of two:
     pass 1 and codegen agree and pad minimally *)
-Lemma alignb_stmt s n len :
+Lemma alignb_stmt s n dol len :
   0 < n < 2 ^ 31 -> Z.land n (n - 1) = 0 -> 0 <= len -> 0 <= loc s -> loc s + n < 2 ^ 31 ->
-  (loc s - len) mod n = 0 ->
+  loc s = dol + len ->
   let s' := do_alignb s [ENum n] in
   let pad := (n - loc s mod n) mod n in
   is_min_pad (loc s) n pad
   /\ ocodes s' = OAlignb n :: ocodes s
   /\ loc s' = loc s + pad
-  /\ (forall m st dol, gen_ocode E m st dol len (OAlignb n) = Bytes (repeat 0 (Z.to_nat pad))).
+  /\ (forall m st, gen_ocode E m st dol len (OAlignb n) = Bytes (repeat 0 (Z.to_nat pad))).
 Proof.
   intros Hn Hp Hlen Hl Hov Horg. cbn zeta.
-  assert (Hmod : len mod n = loc s mod n).
-  { replace (loc s) with (len + (loc s - len)) by lia.
-    rewrite Zplus_mod, Horg, Z.add_0_r, Z.mod_mod by lia. reflexivity. }
+  assert (Hmod : (dol + len) mod n = loc s mod n) by (rewrite Horg; reflexivity).
   split; [apply min_pad_formula; lia|].
   cbn [do_alignb]. rewrite (int32_id n) by lia.
   assert (H0 : (n <=? 0) = false) by (apply Z.leb_gt; lia). rewrite H0.
